@@ -338,7 +338,8 @@ def rand_args(rnd, kind):
         elif k < .85: ds = rnd.sample(range(7), rnd.randrange(1, 8)); form = "list"
         else: ds = [rnd.randrange(7) for _ in range(rnd.randrange(2, 5))]; form = "list"
         if form == "set": ds = sorted(set(ds))
-        return [rand_clock(rnd, .25), rand_clock(rnd, .15), ds, form]
+        a_ = rand_clock(rnd, .25)
+        return [a_, a_ if rnd.random() < .12 else rand_clock(rnd, .15), ds, form]          # now and then a slot that ends in the minute it starts in
     if kind == 8: return [rnd.choice([0, 1, 50, 99, 100, rnd.randrange(101), rnd.randrange(101), 101, 255, 256, 4095, 4096, 40000, 65535, 65536])]
     if kind == 12: return rand_breeze_args(rnd)
     return []
@@ -388,8 +389,9 @@ def state_reply_for(rnd, kind):
 def type1_state_reply(rnd):
     b = bytearray(rand_bytes(rnd, rnd.choice([101, 120, 133])))
     b[75] = rnd.choice([0, 1, 1, rnd.randrange(256)])
-    b[77:79] = struct.pack("<H", rnd.randrange(65536))
-    for o in (89, 93, 97): b[o:o + 4] = struct.pack("<I", rnd.choice([rnd.randrange(86400), rnd.randrange(86400), rnd.randrange(2 ** 32)]))
+    b[77:79] = struct.pack("<H", rnd.choice([rnd.randrange(65536), rnd.randrange(65536), 0, 0, 1, 65535]))          # an idle plug that is on draws 0 W
+    for o in (89, 93, 97): b[o:o + 4] = struct.pack("<I", rnd.choice([rnd.randrange(86400), rnd.randrange(86400), rnd.randrange(2 ** 32), 0]))
+    if rnd.random() < .1: b[89:101] = bytes(12)          # just switched on by hand: no timer, nothing elapsed yet
     return bytes(b)
 
 
@@ -614,6 +616,7 @@ def scribble(obj):
         except Exception: pass
 
 
+LOCAL_DESTINATIONS = ["127.0.0.1", "127.0.0.1", "127.0.0.2", "127.7.7.7"]
 async def feed_bridge(n_ports, events, raising=(), show=None, sentinel=None, serial=False, restarts=0, ports=None, during_start=None, occupy=None, clock_steps=None):
     """events: [(port index, datagram bytes)] sent in order from one socket in paced bursts, then one sentinel per port as
     delivery barrier.  Returns (callback log [rendered device], loop-exception-handler calls, warnings).
@@ -671,7 +674,7 @@ async def feed_bridge(n_ports, events, raising=(), show=None, sentinel=None, ser
                 await bridge.start()
             for i, (p, d) in enumerate(events):
                 if clock_steps is not None: clock_steps[0].shift(clock_steps[1][i % len(clock_steps[1])])      # the wall clock steps (also backwards: DST, NTP) between broadcasts
-                tx.sendto(d, ("127.0.0.1", ports[p]))
+                tx.sendto(d, (LOCAL_DESTINATIONS[i % len(LOCAL_DESTINATIONS)], ports[p]))       # the bridge listens on every local address, not on one
                 if serial:                      # nothing else in flight: let the loop take this datagram before the next is sent
                     for _ in range(4): await asyncio.sleep(0.001)
                 elif i % 8 == 7: await asyncio.sleep(0)
